@@ -576,6 +576,17 @@ func runC02R3(c *Ctx) {
 	if nw == 0 {
 		c.bad("R3", "write of packetCount", p.Pos(newOID.Pos()), "the order counter is never advanced: every request gets the same order id")
 	}
+	// the id issued is the counter's new value itself (not a reduction of it): ids are pairwise distinct and increasing
+	for _, rl := range returnLeaves(newOID, 0) {
+		t := affineOf(rl.v)
+		good := len(t.coef) == 1 && (t.c == 0 || t.c == 1)
+		for k, v := range t.coef {
+			if v != 1 || !strings.HasSuffix(k, ".packetCount") {
+				good = false
+			}
+		}
+		c.check(good, "R3", "newOrderID returns the counter", p.Pos(newOID.Pos()), "the issued id is the advanced counter", "newOrderID returns "+t.String()+" instead of the advanced counter: order ids can repeat, and the sort by order id no longer reflects arrival order")
+	}
 	// newOrderID callers
 	for _, in := range p.callersOfStatic(newOID) {
 		c.check(in.Parent() == newReq, "R3", "caller of newOrderID: "+fnName(in.Parent()), pos(in), "order ids are issued only for received requests", "newOrderID called outside newOrderedRequest")
@@ -844,11 +855,49 @@ func runC02R3(c *Ctx) {
 						if n != f {
 							return false
 						}
-						_, isSlice := st.Val.(*ssa.Slice)
-						return isSlice
+						sl, isSlice := st.Val.(*ssa.Slice)
+						if !isSlice {
+							return false
+						}
+						// l[1:] drops the head; l[:len(l)-1] does only after copy(l, l[1:]) has shifted the list left
+						if k, ok := constInt(sl.Low); sl.Low != nil && ok && k == 1 && sl.High == nil {
+							return true
+						}
+						if sl.Low == nil && sl.High != nil {
+							shifted := false
+							eachInstr(maybe, func(y ssa.Instruction) {
+								cc := callOf(y)
+								if cc == nil || builtinName(cc) != "copy" || !dominates(y, x) || y.Block() != x.Block() {
+									return
+								}
+								src, ok := cc.Args[1].(*ssa.Slice)
+								if !ok || src.Low == nil {
+									return
+								}
+								if k, ok := constInt(src.Low); !ok || k != 1 {
+									return
+								}
+								dstIs, srcIs := false, false
+								for _, l := range leavesOf(cc.Args[0]) {
+									if l.Kind == leafFieldLoad && l.Field == f {
+										dstIs = true
+									}
+								}
+								for _, l := range leavesOf(src.X) {
+									if l.Kind == leafFieldLoad && l.Field == f {
+										srcIs = true
+									}
+								}
+								if dstIs && srcIs {
+									shifted = true
+								}
+							})
+							return shifted
+						}
+						return false
 					}
 					miss := reachAvoiding(maybe, send, isLoopHeadStart(l), isPop)
-					c.check(!miss, "R3", "maybeSendPackets pops "+f, pos(send), "head is removed after sending", "the head of "+f+" is not removed after a send: the same packet is matched again")
+					c.check(!miss, "R3", "maybeSendPackets pops "+f, pos(send), "head is removed after sending (l[1:], or copy(l, l[1:]) and truncation)", "the head of "+f+" is not removed after a send (the list is not shifted, or something other than the head is dropped): the same packet is matched and written again")
 				}
 			}
 		}
